@@ -3,6 +3,7 @@ CONSTANTS
   Names = {"a", "b", "XLONG", "LONG", ""}
   BaseLens = {0, 2}
   Align = {}
+  EndAlign = {}
   MaxOps = 7
   MaxFiles = 3
   Srcs = {"exact", "short", "long"}
